@@ -87,7 +87,7 @@ def rule_generator_protocol(rep, fb):
         raise AnalysisError("ArrayGenerator::generate_and_check not found")
     g = gc[0]
     where = "%s:%d" % (g["file"], g["line"])
-    ifs = [s for s in g["body"] if s[0] == "if"]
+    ifs = find_all(g["body"], lambda n: n[0] == "if" and isinstance(n[-1], int) and n[1][0] != "declcond")
     def throws(s):
         return any(x[0] == "throw" for x in s[2])
     len_guard = [s for s in ifs if throws(s) and "length_" in repr(s[1]) and find_all((s[1],), lambda n: n[0] == "mcall" and n[1] == "length")]
@@ -102,6 +102,18 @@ def rule_generator_protocol(rep, fb):
         c = cexpr(form_guard[0][1])
         neg = bool(find_all((c,), lambda n: n[0] == "un" and n[1] == "!" and find_all((n,), lambda k: k[0] == "mcall" and k[1] == "equal")))
         r.check(neg, "generate_and_check:form-neg", where, "form guard of generate_and_check throws when the forms ARE equal (missing negation)")
+    # state (inferred_form_ ...) is committed only after every check that can still refuse the generated array
+    def onblock(stmts, cont):
+        for i, st in enumerate(stmts):
+            if st[0] == "assign" and st[1][0] == "member" and st[1][1] == ("this",):
+                later = list(stmts[i + 1:])
+                for pb, pi, pk in cont:
+                    later += list(pb[pi + 1:])
+                bad = find_all(tuple(later), lambda n: n[0] == "throw")
+                r.check(not bad, "generate_and_check:commit-after-checks:%s" % st[1][2], "%s:%d" % (g["file"], st[-1]),
+                        "generate_and_check assigns %s before a check that can still throw: a refused generation leaves state behind" % st[1][2], detail="%s assigned after the last throwing check" % st[1][2])
+    from .callsites import each_block_cont
+    each_block_cont(g["body"], onblock)
     # VirtualArray::array
     va = [f for f in funcs if f["qual"] == "VirtualArray::array"]
     if not va:
